@@ -61,12 +61,28 @@ pub fn c19(log: &mut Log, seed: u64, tier: &str, fst_bin: &str, work: &str) {
         let rows = gen_rows(&mut r, n, nkeys, dupfree, !is_set && conf % 5 == 0);
         let mode = if is_set { "set" } else { *pick(&mut r, &["sum", "max", "min"]) };
         // input split over 1..3 files
-        let nfiles = std::cmp::max(1, std::cmp::min(r.gen_range(1, 4), std::cmp::max(1, rows.len())));
+        // (every third configuration cuts at random positions, so files may be empty - first,
+        // in the middle or last)
+        let uneven = conf % 3 == 1;
+        let nfiles = if uneven { r.gen_range(3, 5) } else { std::cmp::max(1, std::cmp::min(r.gen_range(1, 4), std::cmp::max(1, rows.len()))) };
+        let mut cuts: Vec<usize> = (0..=nfiles).map(|fi| rows.len() * fi / nfiles).collect();
+        if uneven {
+            for c in cuts.iter_mut().take(nfiles).skip(1) {
+                *c = r.gen_range(0, rows.len() + 1);
+            }
+            cuts.sort();
+            if (conf % 2 == 0 || is_set) && nfiles >= 3 {
+                // certainly an empty file with rows after it
+                cuts[1] = std::cmp::min(cuts[1], rows.len().saturating_sub(1));
+                cuts[2] = cuts[1];
+                cuts.sort();
+            }
+        }
         let mut inputs = vec![];
         for fi in 0..nfiles {
             let p = work.join(format!("in{}.txt", fi));
-            let lo = rows.len() * fi / nfiles;
-            let hi = rows.len() * (fi + 1) / nfiles;
+            let lo = cuts[fi];
+            let hi = cuts[fi + 1];
             let mut s = String::new();
             for (k, v) in &rows[lo..hi] {
                 if is_set {
